@@ -25,8 +25,17 @@ def run_algo_check(prop, tier, level, plans, clauses, nontrivial, rule, key_extr
             for si in range(plan.get("scheds", 3)):
                 pol = plan.get("policies", AT.POLICIES)[si % len(plan.get("policies", AT.POLICIES))]
                 sseed = s0 * 1000003 + tid
-                w = AT.run_one(inst, plan["algo"], plan.get("params", {}), sseed, policy=pol, wire=plan.get("wire", False),
-                               max_steps=plan.get("max_steps", 3000), timers=plan.get("timers", False), stop=plan.get("stop"))
+                try:
+                    w = AT.run_one(inst, plan["algo"], plan.get("params", {}), sseed, policy=pol, wire=plan.get("wire", False),
+                                   max_steps=plan.get("max_steps", 3000), timers=plan.get("timers", False), stop=plan.get("stop"))
+                except Exception as ex:   # the computations could not even be built
+                    what = "building the %s computations raised %s: %s" % (plan["algo"], type(ex).__name__, str(ex)[:80])
+                    if "EXC" in clauses:
+                        v.violation({"algo": plan["algo"], "clause": "BUILD_EXC", "shape": inst["shape"], "params": plan.get("params", {})},
+                                    what, {"inst": inst, "params": plan.get("params", {})})
+                    else:
+                        v.notes.append(what + " on shape " + inst["shape"])
+                    continue
                 rec = AT.trace_record(tid, w, plan["props"], k=plan.get("k", 0), infinity=plan.get("infinity", 10000))
                 records.append(rec)
                 meta[tid] = {"algo": plan["algo"], "params": plan.get("params", {}), "inst": inst, "sched_seed": sseed,
